@@ -417,6 +417,12 @@ func suiteTtml(R *runner, r *rng) {
 		R.countN("ttml.cues", len(d.Cues))
 		o.NT = len(d.V.Styles) > 0 || nl > 1
 		R.add(o)
+		// byte level: the extended Coq XML parser (Kit/XmlParse2.v) vs encoding/xml on the rendered document, and the
+		// byte-level reader model (that parser, then the tree reader) vs ReadFromTTML
+		if root, simple, perr := parseXMLTree([]byte(doc)); perr == nil {
+			R.add(&obs{Suite: "xmlparse2", Group: "ttml.read.xmlparse2", Input: (&enc{}).bytes([]byte(doc)).String(), Impl: (&enc{}).n(0).xnode(root).String(), NT: o.NT})
+			R.add(&obs{Suite: "ttmlreadbytes2", Group: "ttml.read.bytes", Input: (&enc{}).bool(simple).bytes([]byte(doc)).String(), Impl: o.Impl, NT: o.NT})
+		}
 	}
 	for k, v := range ttFreedoms {
 		R.countN("ttml.freedom."+k, v)
@@ -452,14 +458,27 @@ func suiteTtml(R *runner, r *rng) {
 		}
 		R.add(o)
 	}
-	// repository samples (model comparison)
+	// repository samples (model comparison; the extended XML parser where it applies: no CR, CDATA, DOCTYPE)
+	xp2 := func(doc []byte, group string) {
+		if bytes.IndexByte(doc, '\r') >= 0 || bytes.Contains(doc, []byte("<![CDATA[")) || bytes.Contains(doc, []byte("<!DOCTYPE")) {
+			return
+		}
+		if root, _, perr := parseXMLTree(doc); perr == nil {
+			R.add(&obs{Suite: "xmlparse2", Group: group, Input: (&enc{}).bytes(doc).String(), Impl: (&enc{}).n(0).xnode(root).String(), NT: true})
+		}
+	}
 	for _, f := range []string{"example-in.ttml", "example-in-breaklines.ttml", "example-out.ttml", "example-out-breaklines.ttml", "example-out-no-indent.ttml"} {
 		if b, err := readRepoFile("testdata/" + f); err == nil {
 			o := ttReadObs(string(b), nil, "ttml.read.testdata", map[string]interface{}{"file": f})
 			o.NT = true
 			R.add(o)
+			xp2(b, "ttml.read.testdata.xmlparse2")
 		}
 	}
+	for _, cd := range ttCorpus {
+		xp2([]byte(cd.doc), "ttml.read.corpus.xmlparse2")
+	}
+	xp2([]byte(ttRenderExDoc), "ttml.read.corpus.xmlparse2")
 	// mutated documents (model comparison: values inside the faithful domain, class outside)
 	frags := []string{"<br/>", "<span>", "</span>", "<p>", "</p>", " ", "\n", "\n   ", "&amp;", "&#10;", "&#32;", "<!-- c -->", "<![CDATA[x]]>", "<span tts:zIndex=\"x\">", " style=\"nope\"", " begin=\"1s\"", " end=\"x\"", "<BR/>", "<x:br/>", "<b>bold</b>", "<span><span>n</span><br/></span>", " ", "\r\n", "<?pi?>", "<div>", "</div>", " region=\"r0\"", " tts:color=\"c1\" color=\"c2\"", "<style xml:id=\"s0\"/>", "<style xml:id=\"zz\" style=\"nope\"/>", "<metadata><ttm:title>t2</ttm:title></metadata>", "<head/>", " ttp:frameRate=\"x\"", " ttp:frameRate=\" 30 \"", " xml:lang=\"e\""}
 	for c := 0; c < N; c++ {
